@@ -584,8 +584,10 @@ def eval_case(ctx: Ctx, case: dict):
     variant = REFERENCE_VARIANT
     trace, spec, fails, stats = evaluate(case)
     ctx.corr(op_line(case, variant), trace, case)
-    ctx.corr(spec_line(case), spec, case)
-    if not trace.startswith("ok LOAD!"):
+    quiet = bool(case.get("quiet"))   # big zones: the Lean specification is cubic in the zone size; the Python oracle suffices
+    if not quiet:
+        ctx.corr(spec_line(case), spec, case)
+    if not quiet and not trace.startswith("ok LOAD!"):
         _guard_queue.append((op_line(case, variant).replace("c20.load", "c20.guard", 1).replace("c20.hist", "c20.guard", 1), stats.pop("marks"), case))
     stats.pop("marks", None)
     if len(_guard_queue) >= 20000:
